@@ -6,9 +6,9 @@ FAMILY = "br"
 
 MANIFEST = {
  "level": 'other',
- "text": "Proved about the Gallina models of ser_br.rs, read_cache_lookup.rs, object_cache.rs and de_br.rs: (format level, any emitter) bytes that are node by node either the structure or 0xfe + a path valid for the decoder's stack decode to the tree in the grammar, both decoders and the length probe, are canonical, and are not longer than the classic form when back-references are only used where they are not longer; (serializer level, for every hash function with an injective tree hash — explicit, satisfiable premise) whenever node_to_bytes_backrefs returns bytes they decode to the tree, are canonical, are no longer than the classic serialization (classic length < 2^32-5) and re-serialize to themselves. Not proved: that the serializer never fails (op-stack assert, u32 reference-count underflow, breadth-first fuel) — explored only. Run-to-run determinism is a property of the model by construction (no iteration over hashed containers) and is tested on the implementation. Model vs implementation byte for byte on DAG-shared trees; implementation search for round trip (both decoders), length, determinism, idempotence, canonical form, length probes.",
- "note": vlib.NOTE_COMMON + " Level 'other': totality of the serializer is not proved and sha256's collision resistance appears as the premise 'tree hash injective'.",
- "technique": 'Coq proof (format-level emitter theorem, read-cache soundness under tree-hash injectivity) + byte-for-byte model/implementation run of the serializer on DAG-shared trees + implementation search (round trip, length, determinism, idempotence, canonical form)',
+ "text": "Proved about the Gallina models of ser_br.rs, read_cache_lookup.rs, object_cache.rs and de_br.rs: (format level, any emitter) bytes that are node by node either the structure or 0xfe + a path valid for the decoder's stack decode to the tree in the grammar, both decoders and the length probe, are canonical, and are not longer than the classic form when back-references are only used where they are not longer; (serializer level, for every hash function with an injective tree hash - explicit, satisfiable premise; collision resistance for sha256) TOTALITY (C17_total): on every tree whose atoms are shorter than 2^32-5 bytes and which has at most (2^32-2)/6 nodes (the u32 ranges of serialized_length_atom and of the reference counts; the allocator holds at most 125,000,000 nodes) node_to_bytes_backrefs returns bytes - the op-stack assert never fires, no u32 reference count under- or overflows, the breadth-first search never exhausts its fuel; and hence UNCONDITIONALLY for every such tree (C17_all): the bytes decode to the tree in both decoders and the specification, consuming everything, the length probe returns their length, they are canonical, are no longer than the classic serialization (classic length < 2^32-5) and decoding and serializing again gives the same bytes. Run-to-run determinism is a property of the model by construction (a function; no iteration over hashed containers) and is tested on the implementation, not stated as a theorem. Model vs implementation byte for byte on DAG-shared trees; implementation search for round trip (both decoders), length, determinism, idempotence, canonical form, length probes.",
+ "note": vlib.NOTE_COMMON + " Level 'other': every clause but run-to-run determinism is a theorem for all trees in the code's u32 ranges; sha256's collision resistance appears as the premise 'tree hash injective'.",
+ "technique": 'Coq proof (format-level emitter theorem, read-cache soundness under tree-hash injectivity, totality of the serializer: reference-count domination invariant, breadth-first termination measure, structural recursion over the write stack) + byte-for-byte model/implementation run of the serializer on DAG-shared trees + implementation search (round trip, length, determinism, idempotence, canonical form)',
 }
 
 
@@ -79,7 +79,8 @@ def run(ctx):
                 "non-trivial = distinct tree whose compressed form is shorter than its classic form (at least one back-reference)")
     ctx.explanation = ("Theorems (Props/C17.v): C17_emit_ok, C17_enc_canonical, C17_format_never_grows (format level, any emitter; also what C19 needs); "
                        "C17_serializer_emits_valid_paths, C17_roundtrip, C17_never_grows, C17_canonical, C17_idempotent (serializer level, premise: tree hash injective, "
-                       "conclusion conditional on the serializer returning bytes); C17_premise_satisfiable. Unproved: totality of the serializer (C17_total in the header). "
+                       "conclusion conditional on the serializer returning bytes); C17_total (the serializer returns bytes on every tree in the u32 ranges of the code) and C17_all (all of "
+                       "the above with no premise on the outcome); C17_premise_satisfiable. "
                        "Correspondence: node_to_bytes_backrefs model (extracted SHA-256) vs implementation byte for byte on small DAG-shared trees; "
                        "property search 'rt' on the implementation: decode with both decoders = tree and consumes everything, |br| <= |classic|, second run in a differently "
                        "populated allocator gives the same bytes, is_canonical_serialization, both length probes = length, re-serialization of the decoded tree = same bytes.")
